@@ -127,6 +127,10 @@ func init() {
 	x8 := detBytes("x8", 70000)
 	add("b21", cid.NewCidV1(cid.Raw, mustSum(x8, mh.SHA2_256, -1)), x8, "x8") // a section larger than 64 KiB
 
+	// identity CID of 305 bytes: as a root its CBOR byte-string head takes three bytes (b10 as a root: one byte)
+	x9 := detBytes("x9", 300)
+	add("b22", cid.NewCidV1(cid.Raw, idmh(x9)), x9, "x9")
+
 	// digest identities
 	type dk struct{ s string }
 	seen := map[string]string{}
